@@ -22,12 +22,12 @@ def run(repo: Repo, chk: Check):
                       "convention ra is pushed after the argument pops and the inserts are applied from the highest index down", floor=3)
     chk.rule("R06.g", "at a call site arguments are stored before the jal and the result is read after it; a return stores the "
                       "result before jumping to the end label", floor=3)
-    rule_convention_roles(repo, chk, "R06.a")
-    r06a(repo, chk)
-    rule_function_labels(repo, chk, "R06.b")
-    r06cdf(repo, chk)
-    r06e(repo, chk)
-    r06g(repo, chk)
+    chk.guarded(rule_convention_roles, repo, chk, "R06.a")
+    chk.guarded(r06a, repo, chk)
+    chk.guarded(rule_function_labels, repo, chk, "R06.b")
+    chk.guarded(r06cdf, repo, chk)
+    chk.guarded(r06e, repo, chk)
+    chk.guarded(r06g, repo, chk)
 
 
 def _addr(site):
